@@ -8,3 +8,4 @@ INFO = {'not_decided': ['match statements, PEP 695, except*, del, dynamic names 
                           'jump subsumption: states reachable through break/continue/return/raise are included in the jump-free state at identifier level'],
         'trusted': []}
 import contracts.composition  # noqa
+import props._all  # noqa
